@@ -5,7 +5,7 @@ from ..core import Mutant, norm
 from .. import memo
 from ..escape import Escape, RAISER_TABLE, NOT_IN_TABLE
 from ..absint import Domain, Interp, NORMAL, RETURN, RAISE, is_raise
-from ..astutil import method_call, unparse, is_self_call, parent, in_subtree
+from ..astutil import method_call, unparse, is_self_call, parent, in_subtree, flat
 from ..index import dotted, walk_local
 from ..loader import AnalysisError
 
@@ -89,22 +89,22 @@ def check(run):
 
     # R2 authentication gate
     pick = ix.func(MM, "Memoer.pick")
-    flags = {t.id for n in pick.node.body if isinstance(n, ast.Assign) and isinstance(n.value, ast.Call) and is_self_call(n.value, "wiff")
+    flags = {t.id for n in flat(pick.node.body) if isinstance(n, ast.Assign) and isinstance(n.value, ast.Call) and is_self_call(n.value, "wiff")
              for t in n.targets if isinstance(t, ast.Name)}
     codes = {dotted(n.slice) for n in walk_local(pick.node) if isinstance(n, ast.Subscript) and dotted(n.value) == "self.Sizes"}
-    top = [n for n in pick.node.body if isinstance(n, ast.If) and dotted(n.test) in flags]
+    top = [n for n in flat(pick.node.body) if isinstance(n, ast.If) and dotted(n.test) in flags]
     if not top or len(codes) != 1:
         run.inconclusive_at("C22.R2", run.site(pick), "pick(): encoding flag from self.wiff() / gram code indexing self.Sizes not recognised")
         return
     codev = sorted(codes)[0]
     for branch, body in (("b2", top[0].body), ("b64", top[0].orelse)) if top else ():
         gate = None
-        for st in body:
+        for st in flat(body):
             if isinstance(st, ast.If) and st.body and isinstance(st.body[-1], ast.Raise):
                 t = unparse(st.test)
                 if "self.authic" in t and ("%s not in self.Audex" % codev) in t and isinstance(st.test, ast.BoolOp) and isinstance(st.test.op, ast.And):
                     gate = st
-        sizes_use = [st for st in body if isinstance(st, ast.Assign) and ("self.Sizes[%s]" % codev) in unparse(st.value)]
+        sizes_use = [st for st in flat(body) if isinstance(st, ast.Assign) and ("self.Sizes[%s]" % codev) in unparse(st.value)]
         ok = gate is not None and bool(sizes_use) and gate.lineno < sizes_use[0].lineno
         kind = dotted(gate.body[-1].exc.func) if gate is not None and isinstance(gate.body[-1].exc, ast.Call) else None
         ok = ok and kind is not None and run.lat.issub(run.lat.canon(kind), "MemoerError")
